@@ -191,7 +191,48 @@ def check_model(model, rec):
     return MS.model_failures(model, rec, lambda sig, cmd: cmd in CMDS, "model")
 
 
-PARTS = {"unit": check_unit, "model": check_model}
+def check_retry(case, rec):
+    """A conversion that failed on a field it cannot map (every valid cell the same: no range, no spread), in a program
+    whose field is then replaced the documented way (deleted and added again under its name) and which is run again:
+    the conversion now maps the field that is there."""
+    from mpilot.exceptions import MPilotError
+    from mpilot.program import EEMS_CSV_LIBRARIES, Program
+
+    cmd, params = case["cmd"], case["params"]
+    o = U.evaluate(case)
+    if o.ref_kind != "cells" or o.status != "ok":
+        return []
+    spec = case["arrays"][0]
+    valid = [x for x, m in zip(spec["data"], spec["mask"] or [0] * len(spec["data"])) if not m]
+    if not valid:
+        return []
+    flat = dict(spec, data=[valid[0]] * len(spec["data"]))
+    fuzzy_in = cmd in U.R.FUZZY_INPUT
+    prog = Program(libraries=EEMS_CSV_LIBRARIES)
+    prog.commands["P"] = A.stub("P", A.make_array(flat, case.get("shape")), fuzzy_in)
+    prog.add_command(prog.find_command_class(cmd), "C", dict({A.INPUT_PARAM[cmd][0]: "P"}, **params))
+    try:
+        prog.run()
+        return []  # (the constant field was mapped: the conversion is finished and stays as it is)
+    except MPilotError:
+        pass
+    except Exception:
+        return []  # (C13 owns other exceptions)
+    del prog.commands["P"]
+    prog.commands["P"] = A.stub("P", A.make_array(spec, case.get("shape")), fuzzy_in)
+    rec.label("retry_after_field_replaced:" + cmd)
+    rec.nontrivial_case(["retry", case])
+    try:
+        prog.run()
+        res = prog.commands["C"].result
+    except Exception as exc:
+        return [Failure("%s|retry|raises:%s" % (o.sig, A.exc_name(exc)), "first attempt on a constant field failed, field replaced, second run: %s" % sstr(exc)[:300])]
+    if not (isinstance(res, numpy.ndarray) and U.result_equal(res, o.result, 0.0)):
+        return [Failure("%s|retry|value" % o.sig, "after the constant field was replaced the conversion gives %r, on a fresh program %r" % (res, o.result))]
+    return []
+
+
+PARTS = {"unit": check_unit, "model": check_model, "retry": check_retry}
 
 
 def big_integer_cases():
@@ -213,3 +254,4 @@ def run_shard(ctx, rec):
     drive(ctx, rec, "model", MS.model_cases(cmds=CMDS + ["Copy", "Sum"]), check_model, ctx.n(1000, 20000))
     drive(ctx, rec, "unit", G.unit_case(CMDS, max_rank=2, min_cells=2, two_distinct=True, close=True,
                                        dtypes=("float64", "int64", "float64", "int64", "uint64")), check_unit, ctx.n(6000, 200000))
+    drive(ctx, rec, "retry", G.unit_case(CMDS, max_rank=2, min_cells=2, two_distinct=True, dtypes=("float64", "int64")), check_retry, ctx.n(1500, 20000))
